@@ -11,7 +11,7 @@ ToolRun!LibConforms.  "Loops forever in layout" is additionally decided at desig
 model-checks spec/AsmRelax (radix 2, all programs of <= 5 directives) for termination.
 """
 import os, json, shutil, collections
-import vlib, asmlib, fuzzlib, corpus
+import xlib, vlib, asmlib, fuzzlib, corpus
 
 PID = "C10"
 SAN = ["-O1", "-g", "-fsanitize=address,undefined", "-fno-sanitize-recover=all"]
@@ -88,6 +88,21 @@ def run(tier, replay=None):
         for c, what in fuzzlib.exe_sample(os.path.join(corpus.tools(), "hexasm"), esub, d, ".S", "c10"):
             chk.violation("exe:" + what.split(',')[0], "hexasm executable on input %s: %s" % (c['id'], what), {"input.S": c['src'].encode('latin-1', 'replace')})
         chk.set("executable_runs", len(esub)); chk.set("scale_inputs", len(scale)); chk.set("scale_sizes", list(sizes))
+        # the parser against spec/AsmSyntax.tla (drift grade: which inputs are accepted is not the property's business, but the grammar is
+        # the specification's, so a disagreement is recorded)
+        import asmsyntax
+        ssrc = [(c['id'], c['src']) for c in cases if c['fam'] in ('unusual', 'edge')] + [(c['id'], c['src']) for c in cases if c['fam'] == 'mutant'][:(3000 if tier == "quick" else 100000)]
+        ssrc += [('seed%d' % k, s) for k, s in enumerate(seeds)]
+        srecs = asmsyntax.run(d, plain, ssrc)
+        scan = json.loads(json.dumps(next(r for r in srecs if r['status'] == 'ok' and len(r['shown']) > 1))); scan['id'] = 'canary'; scan['shown'] = scan['shown'][:-1]
+        sverd = xlib.validate(srecs + [scan], d, "c10syn", module="AsmSyntaxV", cfg="AsmSyntaxV.cfg")
+        if sverd[-1]['v'] != 'bad':
+            raise vlib.MachineryError("canary accepted by AsmSyntaxV: binding is not live")
+        scnt = collections.Counter(v['cls'] for v in sverd[:-1])
+        sdrift = [{'id': r['id'], 'class': v['cls'], 'src': r['src'][:200]} for r, v in zip(srecs, sverd[:-1]) if v['v'] != 'ok']
+        chk.set("parser_sources_judged_by_AsmSyntax", len(srecs)); chk.set("parser_verdicts", dict(scnt)); chk.set("DRIFT_parser_differs_from_AsmSyntax", len(sdrift))
+        if sdrift:
+            chk.set("parser_drift_examples", sdrift[:5])
         # the lexer against spec/Lex.tla: every string up to length 4 over a small alphabet, tokenised by TLC and by the tool
         import lexcheck
         nlex, lexbad = lexcheck.run(d, exe, exe, only="asm")
